@@ -323,7 +323,10 @@ def _case(root: Path, case: dict) -> dict:
             from concurrent.futures import ThreadPoolExecutor
             with ThreadPoolExecutor(2) as pool:
                 srcs = [out / "cpp", out / "jni"] if case.get("judge_sources", True) else []
-                cx = judges.judge_cpp_tree(out, root / "tu", pool, [out / "cpp", out / "jni"], srcs, [out / "cpp", out / "jni"])
+                hdrs = [out / "cpp", out / "jni"]
+                if "cpp" not in case["targets"]:
+                    hdrs, srcs = [], []        # the JNI glue is written against the C++ headers: nothing to compile without them
+                cx = judges.judge_cpp_tree(out, root / "tu", pool, hdrs, srcs, [out / "cpp", out / "jni"])
             res["cxx_jobs"] = int(cx.pop("__count__")[0])
             res["cxx"] = cx
             if (out / "java").exists():
@@ -705,6 +708,10 @@ def run(ctx):
             if bad:
                 ks = [s for s in shape if s.startswith("compile:")]
                 key = "+".join(ks) if ks else ("compile:unclassified" if not c.get("features") else "compile:config:" + "+".join(c["features"]))
+                if (not ks and "java.package-private" in c.get("features", ()) and set(bad) == {"java"}
+                        and all("is not public in" in e for e in r["javac"])
+                        and len({tuple(d["ns"]) for d in front.flatten_decls(r["ast"] or [])}) > 1):
+                    key = "compile:config:java.package-private:across-namespaces"
                 failures.append((key, "generated code does not compile", {"errors": {k: v[:2] for k, v in list(bad.items())[:4]}, "shape": shape}))
         exp = c["expect"]
         if exp and exp.startswith("documented:"):
